@@ -135,19 +135,22 @@ class ArithFunctions(InterpreterFunctions):
 
     @impl(arith.CmpiOp)
     def run_cmpi(self, interpreter: Interpreter, op: arith.CmpiOp, args: PythonValues):
+        assert isa(op.lhs.type, builtin.IndexType | builtin.IntegerType)
+        lhs = to_signed(args[0], _int_bitwidth(interpreter, op.lhs.type))
+        rhs = to_signed(args[1], _int_bitwidth(interpreter, op.lhs.type))
         match op.predicate.value.data:
             case 0:  # "eq"
-                return (args[0] == args[1],)
+                return (lhs == rhs,)
             case 1:  # "ne"
-                return (args[0] != args[1],)
+                return (lhs != rhs,)
             case 2:  # "slt"
-                return (args[0] < args[1],)
+                return (lhs < rhs,)
             case 3:  # "sle"
-                return (args[0] <= args[1],)
+                return (lhs <= rhs,)
             case 4:  # "sgt"
-                return (args[0] > args[1],)
+                return (lhs > rhs,)
             case 5:  # "sge"
-                return (args[0] >= args[1],)
+                return (lhs >= rhs,)
             case 6:  # "ult"
                 return (args[0] < args[1],)
             case 7:  # "ule"
